@@ -1,6 +1,6 @@
 (* C05Top.v — the property theorems of C05 in their final form (stated about run_C05 / spec_C05 / known_C05,
    the functions the harness evaluates). *)
-From DV Require Import Eval Sql Run_C05 C05Sort C05Order C05Sql C05P C05Pages C05Codec C05Wit.
+From DV Require Import Eval Sql Nested Run_C05 C05Sort C05Order C05Sql C05P C05Pages C05Codec C05Wit C05Nested.
 Open Scope list_scope.
 
 (* the disjunction written by get_paging is the strict lexicographic "beyond the cursor" relation
@@ -98,15 +98,24 @@ Theorem filter_default_bound_holds : forall vo d vo' dx, default_sx vo d = (vo',
 Proof. intros vo d vo' dx H. apply (default_sx_sem vo d vo' dx H). Qed.
 
 (* ---------- tier T2, first slice (nested entity / array references) ---------- *)
-(* the statement for the slice: outside the open classes (taken level by level) the compiled statement gives the
-   reference evaluation; EXISTS for a reference that is not nullable <=> its nested result, under the nested
-   query's own filters / order / first / skip, is not empty (that is how Nested.eval_nodes defines it) *)
+(* outside the open classes (taken level by level) the compiled statement gives the reference evaluation;
+   EXISTS for a reference that is not nullable <=> its nested result, under the nested query's own
+   filters / order / first / skip, is not empty (that is how Nested.eval_nodes defines it) *)
 Definition C05_T2_full : Prop :=
   forall Q nodes ps, q2_ok Q ps = true -> known_nested Q nodes ps = [] ->
   run_query2 Q nodes ps = Some (eval2 Q ps nodes).
 
-(* what is proved so far: in the model of the compiler the EXISTS sub-query of a reference gets the limit of the
-   select-list sub-query of that reference - LIMIT 1 for an entity reference, the nested query's own
-   LIMIT / OFFSET for an array reference (is_unique_value of get_exists_query) *)
-Theorem T2_exists_limit_partial : forall si, exists_unique si = negb (si_array si).
-Proof. reflexivity. Qed.
+Theorem T2_full_holds : C05_T2_full.
+Proof. exact T2_outside_known. Qed.
+
+Lemma zlist_eqb_refl5 : forall l, zlist_eqb l l = true.
+Proof. induction l as [|x l IH]. reflexivity. unfold zlist_eqb in *. cbn [list_eqb]. rewrite Z.eqb_refl, IH. reflexivity. Qed.
+
+Theorem T2_spec : forall Q nodes ps,
+  q2_ok Q ps = true -> known_C05 (CNested Q nodes ps) = [] ->
+  spec_C05 (CNested Q nodes ps) (run_C05 (CNested Q nodes ps)) = true.
+Proof.
+  intros Q nodes ps Hok Hk. cbn [known_C05] in Hk. cbn [spec_C05 run_C05].
+  destruct (compile2 Q) as [vo c] eqn:Ec. cbn [hash_text app]. rewrite skip_enc_vo.
+  rewrite (T2_outside_known Q nodes ps Hok Hk). apply zlist_eqb_refl5.
+Qed.
